@@ -218,5 +218,5 @@ func TestVerif_C15(t *testing.T) {
 		maxLen = 4
 	}
 	verifkit.Enumerate(k, t, fmt.Sprintf("pool-sequences<=%d", maxLen), true, c15Seqs(maxLen), prop)
-	verifkit.Rapid(k, t, "random-dumps", k.N(4000, 200000), c15Gen, prop)
+	verifkit.Rapid(k, t, "random-dumps", k.N(4000, 1000000), c15Gen, prop)
 }
